@@ -1,0 +1,18 @@
+package urltree
+
+// URLPart is one host label or path segment of a URL, the unit the tree
+// matches on.
+type URLPart = urlPart
+
+// Wildcard is the URL part that, written last in a declared URL, matches any
+// rest of a URL.
+const Wildcard = wildcard
+
+// SplitURL splits a URL into the parts the tree matches on (see splitURL):
+// leading and trailing '.' and '/' are dropped, the host is split on '.' and
+// the path on '/'. Code that has to agree with the tree about which URLs a
+// declared URL matches (such as the expressions registered with the proxy)
+// must be derived from these parts.
+func SplitURL(url string) []URLPart {
+	return splitURL(url)
+}
